@@ -175,6 +175,15 @@ func (e *Engine) AnalyzeRoot(fn *ssa.Function, args []*Val) ([]*Path, error) {
 	var paths []*Path
 	for _, o := range outs {
 		p := &Path{Events: o.st.events, Conds: o.st.conds, Ret: o.ret, Mem: o.st.mem}
+		for _, r := range o.ret {
+			var c *Val
+			if r != nil {
+				if cc := e.contentOf(o.st, r); cc != r {
+					c = cc
+				}
+			}
+			p.RetContent = append(p.RetContent, c)
+		}
 		switch o.kind {
 		case oPanic:
 			p.Panic = true
@@ -309,6 +318,22 @@ func (e *Engine) load(st *state, addr *Val, t types.Type) *Val {
 	}
 	root := addrRoot(addr)
 	if root != nil && root.Op == "alloc" {
+		// a struct made on this path whose fields were stored one by one, read as a whole (copied, captured by a
+		// method value …): the aggregate of what its fields hold
+		if sv, isStruct := t.Underlying().(*types.Struct); isStruct && sv.NumFields() > 0 && sv.NumFields() <= 16 {
+			any := false
+			agg := &Val{Op: "struct", Type: t}
+			for i := 0; i < sv.NumFields(); i++ {
+				fa := &Val{Op: "field", ID: i, Name: sv.Field(i).Name(), Args: []*Val{addr}, Type: types.NewPointer(sv.Field(i).Type())}
+				if _, has := st.mem[fa.Key()]; has {
+					any = true
+				}
+				agg.Args = append(agg.Args, e.load(st, fa, sv.Field(i).Type()))
+			}
+			if any {
+				return agg
+			}
+		}
 		// memory allocated on this path and never stored: zero value.
 		// (an enclosing aggregate store is handled above for one level)
 		if anc := e.storedAncestor(st, addr); anc != nil {
@@ -409,6 +434,29 @@ func (e *Engine) contentOf(st *state, v *Val) *Val {
 		}
 	}
 	switch v.Op {
+	case "call":
+		// the result of a bytes/slices function applied to a view of the buffer: its content is the function applied to
+		// the view's content
+		if strings.HasPrefix(v.Name, "bytes.") || strings.HasPrefix(v.Name, "slices.") {
+			changed := false
+			args := make([]*Val, len(v.Args))
+			for i, a := range v.Args {
+				args[i] = a
+				if a != nil && a.Contains(func(x *Val) bool { return x.Op == "bufbytes" || x.Op == "bufnext" }) {
+					args[i] = e.contentOf(st, a)
+					if args[i] != a {
+						changed = true
+					}
+				}
+			}
+			if changed {
+				c := *v
+				c.Args = args
+				c.key = ""
+				return &c
+			}
+		}
+		return v
 	case "choice":
 		changed := false
 		args := make([]*Val, len(v.Args))
@@ -530,7 +578,7 @@ func (e *Engine) execFrom(st *state, fr *frame, b *ssa.BasicBlock, prev *ssa.Bas
 						inLoop = true
 					}
 				}
-				if !inLoop {
+				if !inLoop && !e.unrollable(fr, b, body) {
 					return e.execLoop(st, fr, b, prev, body, nil)
 				}
 			}
@@ -644,6 +692,56 @@ func (e *Engine) execFrom(st *state, fr *frame, b *ssa.BasicBlock, prev *ssa.Bas
 		return e.trunc(st, "block without terminator")
 	nextBlock:
 	}
+}
+
+// unrollable: a loop over a short slice of known length whose body calls the element (a list of closures run in
+// order, `for _, step := range steps { step(buf) }`): summarising it would lose which function runs when, so it is
+// executed iteration by iteration – the index is a constant, so the loop test decides itself.
+func (e *Engine) unrollable(fr *frame, h *ssa.BasicBlock, body map[*ssa.BasicBlock]bool) bool {
+	iff, ok := h.Instrs[len(h.Instrs)-1].(*ssa.If)
+	if !ok {
+		return false
+	}
+	bo, ok := iff.Cond.(*ssa.BinOp)
+	if !ok || bo.Op != token.LSS {
+		return false
+	}
+	if def, isInstr := bo.Y.(ssa.Instruction); isInstr && body[def.Block()] {
+		return false
+	}
+	if _, has := fr.env[bo.Y]; !has {
+		if _, isC := bo.Y.(*ssa.Const); !isC {
+			return false
+		}
+	}
+	n, isC := e.val(fr, bo.Y).Int64()
+	if !isC || n < 0 || n > 16 {
+		return false
+	}
+	// the counter: a header phi starting at a constant and stepped by a constant
+	okPhi := false
+	for _, in := range h.Instrs {
+		phi, isPhi := in.(*ssa.Phi)
+		if !isPhi {
+			break
+		}
+		if strings.Contains(phi.Comment, "rangeindex") {
+			okPhi = true
+		}
+	}
+	if !okPhi {
+		return false
+	}
+	for blk := range body {
+		for _, in := range blk.Instrs {
+			if c, isCall := in.(*ssa.Call); isCall && !c.Call.IsInvoke() && c.Call.StaticCallee() == nil {
+				if _, isB := c.Call.Value.(*ssa.Builtin); !isB {
+					return true
+				}
+			}
+		}
+	}
+	return false
 }
 
 // assume records that cond c evaluated to `taken` on this path.
@@ -1492,6 +1590,14 @@ func (e *Engine) step(st *state, fr *frame, instr ssa.Instruction) {
 		default:
 			if x.IsConst() && x.C != nil && in.Op == token.SUB && isNum(x.C) {
 				fr.env[in] = mkConst(constant.UnaryOp(token.SUB, x.C, 0), in.Type())
+			} else if b, isB := in.Type().Underlying().(*types.Basic); in.Op == token.XOR && x.IsConst() && x.C != nil && x.C.Kind() == constant.Int && isB && b.Info()&types.IsUnsigned != 0 {
+				// ^c for an unsigned constant of a concrete type (e.g. ^T(0), the largest value of T, in an instantiation)
+				bits, _ := intBits(b)
+				if bits == 0 {
+					bits = 64
+				}
+				mask := constant.BinaryOp(constant.Shift(constant.MakeInt64(1), token.SHL, uint(bits)), token.SUB, constant.MakeInt64(1))
+				fr.env[in] = mkConst(constant.BinaryOp(mask, token.XOR, x.C), in.Type())
 			} else {
 				fr.env[in] = &Val{Op: "unop", Name: tokName[in.Op], Args: []*Val{x}, Type: in.Type()}
 			}
